@@ -98,12 +98,16 @@ impl Monitor for C16 {
     }
 }
 
+fn count_squat(mon: &mut C16, emptied: bool) {
+    mon.rep.count(if emptied { "histories with a user-created ERG/SYM pool emptied again around the activation" } else { "histories with a user-created ERG/SYM pool kept across the activation" });
+}
+
 pub fn run(p: &Params) -> Report {
     let total = p.n(1200, 30000);
     let mine = p.share(total);
     let mut rng = Rng::new(p.shard_seed() ^ 0xC16);
     let mut mon = C16 { rep: Report::new("C16"), case_seed: 0 };
-    mon.rep.rule = "cases = sealed blocks of pool-heavy random histories (swaps, deposits incl. several per pool per block with equal and perfect-square amounts, withdrawals incl. withdraw-everything, one-sided floods, subsidies and pegging, 8-40 blocks, all genesis classes); after every seal the built-in pools must exist with both reserves non-zero, every entry of the pools tree must be a pool some transaction named, and for every pool the liquidity tokens summed over all unspent coins must not exceed its recorded liqs. Non-trivial = block with at least one pool request; distinct by height and member hashes".into();
+    mon.rep.rule = "cases = sealed blocks of pool-heavy random histories (swaps, deposits incl. several per pool per block with equal and perfect-square amounts, withdrawals incl. withdraw-everything, one-sided floods, subsidies and pegging, 8-40 blocks, all genesis classes; plus histories in which a user creates the ERG/SYM pool before the rules enable the built-in one and empties it again before or after the activation); after every seal the built-in pools must exist with both reserves non-zero, every entry of the pools tree must be a pool some transaction named, and for every pool the liquidity tokens summed over all unspent coins must not exceed its recorded liqs. Non-trivial = block with at least one pool request; distinct by height and member hashes".into();
     if p.only_case.is_none() {
         mon.rep.require("sealed blocks", p.n(2500, 50000));
         mon.rep.require("pool/liquidity-token backings checked with tokens outstanding", p.n(500, 10000));
@@ -116,6 +120,22 @@ pub fn run(p: &Params) -> Report {
             }
         }
         mon.case_seed = case_seed;
+        if case % 12 == 5 {
+            // a user-created ERG/SYM pool before the rules enable the built-in one (testnet < 500, mainnet <
+            // 180000), deposited, swapped against, possibly emptied again before or after the activation
+            let mut r = Rng::new(case_seed ^ 0x5c);
+            let (net, act) = if r.chance(1, 2) { (NetID::Testnet, 500u64) } else { (NetID::Mainnet, 180_000u64) };
+            let scripted = 3 + r.usize(3);
+            let start = act - 1 - scripted as u64 + r.below(3);
+            let mut w = World::fabricated(case_seed, net, start, 0, 1 << 30);
+            let withdraw_in = match r.below(3) {
+                0 => None,
+                _ => Some(1 + r.usize(scripted - 1)),
+            };
+            self::count_squat(&mut mon, withdraw_in.is_some());
+            squat_history(&mut w, withdraw_in, scripted, 4, &mut [&mut mon]);
+            continue;
+        }
         let mut w = World::random(case_seed);
         w.profile = Profile { normal: 10, newcustom: 6, faucet: 6, swap: 24, deposit: 26, withdraw: 20, stake: 1, doscmint: 1, hostile: 5, odd_spelling_permille: 60, wrong_kind_permille: 40, dependent_permille: 300, max_batch: 8, big_values_permille: 100, degenerate_permille: 60, fast_mint_permille: 0, crowd_permille: 0 };
         w.twin_deposits = case % 2 == 0;
